@@ -67,8 +67,8 @@ type History struct {
 
 type Step struct {
 	Res   string   `json:"res"`   // canonical result, exactly as returned (list orders included)
-	Delta []string `json:"delta"`           // rows removed / added by this entry
-	Sha   string   `json:"sha"`             // SHA-256 of the full canonical dump after this entry
+	Delta []string `json:"delta"` // rows removed / added by this entry
+	Sha   string   `json:"sha"`   // SHA-256 of the full canonical dump after this entry
 	Rows  int      `json:"rows"`
 	Full  string   `json:"full,omitempty"` // -full: the dump text
 	MRes  *Res     `json:"mres,omitempty"` // result in the model's vocabulary (entries with Model)
